@@ -656,7 +656,17 @@ func (in *Interp) block(why string) {
 			in.blockedForever(why)
 		}
 		// a non-main thread: main must be blocked/done too; report through main
-		in.abort = pathEnd{"blocked", "all threads blocked; thread " + fmt.Sprint(me.id) + " on " + why}
+		if m := in.threads[0]; m.state == tBlocked && !in.replayingStrict() {
+			msg := "main thread blocked forever on " + m.blockedOn
+			if r := in.solve(); r == smt.Sat {
+				site := ""
+				if m.top != nil {
+					site = m.top.site()
+				}
+				in.reportFailure("blocked", msg, site)
+			}
+		}
+		in.abort = pathEnd{"blocked", "all threads blocked; thread " + fmt.Sprint(me.id) + " on " + why + "; main on " + in.threads[0].blockedOn}
 		in.aborting = true
 		in.threads[0].wake <- struct{}{}
 		<-me.wake
